@@ -55,7 +55,7 @@ PROPS = {
     "C06": {"lean": ["QF.Props.C06", "QF.Props.C06Apply", "QF.Props.C06LoopsGen"], "extra_ns": ["QF.Props.C06LoopsGen"],
             "sections": [{"section": "hist", "tag": "hist-wit", "opt": "wit=1", "quick": 1, "thorough": 1, "cover_ops": {"fapply"}},
                          hist("hist", ["apply", "fapply", "rownums"], quick=350, thorough=3000)]},
-    "C07": {"lean": ["QF.Props.C07", "QF.Props.C07Eval", "QF.Props.C07Functions", "QF.Props.C06", "QF.Props.C07Decode", "QF.Props.C06LoopsGen"], "extra_ns": ["QF.Props.C07Eval", "QF.Props.C07Functions", "QF.Props.C07Decode", "QF.Props.C06LoopsGen"], "sections": [hist("hist", ["eval", "eval", "permute"], quick=300, cover=["eval"])]},
+    "C07": {"lean": ["QF.Props.C07", "QF.Props.C07Eval", "QF.Props.C07Functions", "QF.Props.C06", "QF.Props.C07Decode", "QF.Props.C06LoopsGen", "QF.Props.C07EvalGen"], "extra_ns": ["QF.Props.C07Eval", "QF.Props.C07Functions", "QF.Props.C07Decode", "QF.Props.C06LoopsGen", "QF.Props.C07EvalGen"], "sections": [hist("hist", ["eval", "eval", "permute"], quick=300, cover=["eval"])]},
     "C08": {"lean": ["QF.Props.C08", "QF.Props.C08Project", "QF.Props.C08Guards", "QF.Props.C08Construct", "QF.Props.C08ProjectGen"], "extra_ns": ["QF.Props.C08Guards", "QF.Props.C08Construct", "QF.Props.C08ProjectGen"],
             "sections": [hist("hist", ["select", "drop", "slice", "copy"], cover=["new", "select", "drop", "slice", "copy"]),
                          {"section": "hist", "tag": "hist-new", "opt": "newonly=1", "quick": 150, "thorough": 1500, "cover_ops": {"new"}}]},
@@ -123,7 +123,10 @@ PROPS = {
                          {"section": "csvraw", "tag": "csvrawfaults", "opt": "faults=1", "quick": 60, "thorough": 600, "cover_ops": {"C"}},
                          {"section": "csvread", "tag": "csvreadfaults", "opt": "faults=1", "quick": 400, "thorough": 4000, "cover_ops": {"CV"}}],
             "rule": "cases = (document, schedule, failing call number); csvraw enumerates every call number of the chosen schedule per document (schedules of more than 160 calls: the first 64, the last 32 and 64 drawn ones); distinct by transcript line"},
-    "C10": {"lean": ["QF.Props.C10", "QF.Props.C10Sticky", "QF.Props.C06", "QF.Props.C06Apply", "QF.Props.C08Project", "QF.Props.C08Guards", "QF.Props.C10Guards", "QF.Props.C08Construct"], "extra_ns": ["QF.Props.C10Sticky", "QF.Props.C06", "QF.Props.C08", "QF.Props.C08Guards", "QF.Props.C10Guards", "QF.Props.C08Construct"], "sections": [dict(hist("hist", []), cover_ops=None)]},
+    "C10": {"lean": ["QF.Props.C10", "QF.Props.C10Sticky", "QF.Props.C06", "QF.Props.C06Apply", "QF.Props.C08Project", "QF.Props.C08Guards", "QF.Props.C10Guards", "QF.Props.C08Construct", "QF.Props.C18Matcher"], "extra_ns": ["QF.Props.C10Sticky", "QF.Props.C06", "QF.Props.C08", "QF.Props.C08Guards", "QF.Props.C10Guards", "QF.Props.C08Construct", "QF.Props.C18Matcher"],
+            "sections": [dict(hist("hist", []), cover_ops=None),
+                         # malformed like/ilike patterns, each used again and again in one process: an error every time, never a panic
+                         dict({"section": "like", "tag": "like-errs", "quick": 400, "thorough": 4000, "cover_ops": {"M", "ME"}}, owns=lambda m: m["op"] in ("like", "likefilter") and m.get("kind") in ("panic", "errdiff"))]},
 }
 
 NOT_APPLICABLE = {}
@@ -153,13 +156,13 @@ LEVEL_TEXT = {
                "Lean 4 proof (shared with C04) + differential correspondence"),
     "C06": _lt("gen_apply_loops_semantics: the Apply1/Apply2/apply0 loops regenerated from today's source write fn(cell of the same physical row) at every row of the index into a zero-initialised array of the full column length, for every column type and accepted signature - exactly applyInstr. setColumn_wf / setColumn_abs / applyFn1_rowwise and the C06Apply lemmas (replace in position or append last, other columns untouched); gen_apply_dispatch / gen_apply_loop (Apply's per-instruction dispatch and loop regenerated from source = applyS, stopping at the first failing instruction). Apply/FilteredApply/WithRowNums of the real code are compared exactly with the spec on derived frames, with a function catalogue defined identically in Go and Lean.",
                "Lean 4 proof (frame invariant, refinement lemmas, regenerated dispatch) + differential correspondence"),
-    "C07": _lt("gen_function_semantics: every function of the default evaluation context, regenerated from today's source, equals the spec's evalUnary/evalBinary on all cells (64-bit wrap-around, nil-neutral concatenation); eval'_bookkeeping: the temp columns of Eval never collide with user columns and are all dropped, for every expression tree. Eval of the real code is compared exactly with the denotational spec under default, user and overriding contexts.",
+    "C07": _lt("gen_eval_semantics / gen_eval_bookkeeping: Eval, tempColName, getFunc and the execute methods of all expression structs, regenerated from today's source, give exactly the hand mirror's result for every expression tree, context and frame; temporary columns are all dropped and the other columns untouched (for today's code). gen_function_semantics: every function of the default evaluation context, regenerated from today's source, equals the spec's evalUnary/evalBinary on all cells (64-bit wrap-around, nil-neutral concatenation); eval'_bookkeeping: the temp columns of Eval never collide with user columns and are all dropped, for every expression tree. Eval of the real code is compared exactly with the denotational spec under default, user and overriding contexts.",
                "Lean 4 proof (regenerated function terms; temp-column choreography of the mirror) + differential correspondence"),
     "C08": _lt("gen_project_semantics / gen_project_total: the work of Slice/Select/Drop/Copy after validation, regenerated from today's source, yields the spec's logical frame and a well-formed physical frame for all requests; gen_new_semantics_partial / gen_factory_semantics: createColumn, New's checks and the enum factory = newS / mkEnum. gen_guards_semantics: the validation prefixes of Slice/Select/Drop/Copy regenerated from today's source reject exactly the requests the spec rejects, for all requests; gen_checkname_semantics (CheckName = legalName on all byte strings); gen_new_guards_partial; C08Project lemmas (projections commute with observation); pointer_roundtrip. New/Select/Drop/Slice/Copy of the real code are compared exactly with newS/selectS/dropS/sliceS/copyS including every rejection rule.",
                "Lean 4 proof (regenerated guard chains; projection lemmas) + differential correspondence"),
     "C09": _lt("gen_equals_eq_spec: QFrame.Equals' shape checks and the five Column.Equals bodies regenerated from today's source equal equalsS on all pairs of well-formed frames; gen_stringAt_semantics / gen_append_semantics (the per-cell rendering used by ToCSV/String and ToJSON); gen_string_semantics (String()'s layout program regenerated from source - widths max(len(header),5), fixLengthString = fixLen, 50-row limit, truncation notice, Dims line - prints the spec's stringPieces on all well-typed frames); equalsS is cell-wise equality (C09Equals). Equals of the real code is compared with the spec in both directions, typed views are cross-checked on every observation, rebuilt frames must be congruent, String() is compared with the frame.",
                "Lean 4 proof (regenerated observation functions) + differential correspondence"),
-    "C10": _lt("gen_sticky_all: for every public operation the guard prefix regenerated from today's source returns a failed receiver unchanged (or carries / reports its error) before anything else, for all requests; gen_reject_semantics, gen_guards_semantics, applyS_stops_at_first_failing and the _err_iff characterisations of the spec. Every generated call, valid or malformed, must end in a frame or Err exactly as the spec decides (no panic, Len()=-1 on failure, no user callback after the first error); physical well-formedness is checked on every reachable frame through the hook.",
+    "C10": _lt("gen_newmatcher_canon (a malformed like pattern is reported by NewMatcher's own error return in today's source); gen_sticky_all: for every public operation the guard prefix regenerated from today's source returns a failed receiver unchanged (or carries / reports its error) before anything else, for all requests; gen_reject_semantics, gen_guards_semantics, applyS_stops_at_first_failing and the _err_iff characterisations of the spec. Every generated call, valid or malformed, must end in a frame or Err exactly as the spec decides (no panic, Len()=-1 on failure, no user callback after the first error); physical well-formedness is checked on every reachable frame through the hook.",
                "Lean 4 proof (regenerated guard chains of all operations; error discipline of the spec) + differential correspondence over a malformed-argument stream"),
     "C11": _lt("interleaving_deterministic / ops_interleaving_deterministic: any multiset of the nine operation models, under every schedule, never writes a shared array and each ends where it ends alone. The real code is run under the race detector with batches of concurrent operations on shared and derived frames; results are compared with the sequential ones.",
                "Lean 4 proof (all schedules, ownership discipline) + race-detector runs as execution-based validation",
